@@ -243,13 +243,19 @@ func (s *StreamScanner) isDelimiterExpr() (error, bool) {
 			return nil, false
 		}
 		delimStart := s.i
-		for ; !s.isEOF && !unicode.IsSpace(rune(s.buf[s.i])); s.i++ {
+		for !s.isEOF {
 			if s.i >= s.fill {
+				// the delimiter string may continue past the bytes read so far
 				if err := s.read(); err != nil {
 					s.err = err
 					return err, false
 				}
+				continue
 			}
+			if unicode.IsSpace(rune(s.buf[s.i])) {
+				break
+			}
+			s.i++
 		}
 		delimEnd := s.i
 		s.delimiter = make([]byte, delimEnd-delimStart)
